@@ -1,4 +1,5 @@
 """C12 - search-list expansion follows resolv.conf semantics (Search facet)."""
+import mutators
 import simlib
 import vlib
 
@@ -11,4 +12,4 @@ def run(ctx):
     if r.violation:
         raise vlib.MachineryError("SearchModel.tla violates %s" % r.violation)
     gens = [{"module": "Gen_C12.tla", "cfg": "Gen_C12_quick.cfg" if ctx.quick else "Gen_C12_thorough.cfg", "name": "bfs"}]
-    simlib.engine_check(ctx, gens, FACETS, labels=("c12.",))
+    simlib.engine_check(ctx, gens, FACETS, labels=("c12.",), selftests=mutators.SEARCH)
